@@ -8,6 +8,7 @@ checks = {
  "C04": ("exploration", "Same histories with validator switches drawn per run; the verdict is compared with the harness's own constraint evaluator over the configuration the merge model predicts, and (metamorphic) with the verdict for that configuration flattened into one intent on a fresh empty datastore.", "4 C04"),
  "C05": ("exploration", "Histories plus one unconfirmed transaction ended by cancel or by fake-clock expiry; intended store and touched device paths compared with the snapshot from before the transaction.", "4 C05"),
  "C06": ("exploration", "Seeded operation sequences (Set valid/invalid/dry-run/device-error, Confirm/Cancel with matching/stale/unknown ids, waits around the deadline) on the fake clock, judged by a transaction-slot reference model with a liveness probe.", "4 C06"),
+ "C08": ("exploration", "C01 histories over the choice profile (top-level, in lists, nested; multi-member cases; prefix-named non-members): per choice instance at most one case on the device and it is the one with the highest-precedence live contribution (choice-aware merge model).", "4 C08"),
  "C09": ("exploration", "Histories with verbatim re-submissions in every input form; the proto, JSON, JSON_IETF and 8 XML renderings of the same tree instance must be empty and both stores unchanged.", "4 C09"),
  "C07": ("fault_enumeration", "For a generated history and a chosen transaction, every collaborator call (target.Set, cache Read/ReadCh/GetKeys/Modify, schema GetSchema) is numbered in a counting pass; sampled (call, fault kind) pairs incl. torn writes, lost acks, short reads, device reject/unreachable/lost reply and fail-stop crash + restart over the same badger directory are injected one at a time in fresh worlds, the request is retried and the outcome compared with the fault-free reference run.", "4 C07"),
  "C13": ("exploration", "Scripted device notifications (re-sync cycles, on-change updates/deletes, JSON blobs, state leaves) into the real Datastore.Sync with 1/2/16 write workers; every cache write of a sync worker parks in a decorator and the seeded scheduler chooses the completion order; CONFIG/STATE compared with a sequential running-mirror model at quiescence.", "4 C13"),
